@@ -1,3 +1,4 @@
+mod alloc;
 mod engine;
 mod frames;
 mod stream;
@@ -14,6 +15,9 @@ mod sym;
 mod wire;
 
 use engine::*;
+
+#[global_allocator]
+static GLOBAL: alloc::Counting = alloc::Counting;
 
 fn usage() -> ! {
     eprintln!("usage: vcheck <ID> quick|thorough | vcheck <ID> --replay <file>");
@@ -64,6 +68,20 @@ fn check(id: &'static str, tier: Tier) -> i32 {
         let c = histprop::check(&ctx, &hp, &acc);
         if c != EXIT_OK {
             return c;
+        }
+        if id == "C01" || id == "C11" {
+            if let Some(code) = props::l3phases::pipe_phase(&ctx, &acc, id) {
+                if code != EXIT_OK {
+                    write_evidence(&ctx, &acc, hp.rule, hp.assumptions, 1);
+                    return code;
+                }
+            }
+            if let Some(code) = props::l3phases::backpressure_phase(&ctx, &acc, id) {
+                if code != EXIT_OK {
+                    write_evidence(&ctx, &acc, hp.rule, hp.assumptions, 1);
+                    return code;
+                }
+            }
         }
         return histprop::finish(&ctx, &hp, &acc);
     }
@@ -127,7 +145,66 @@ fn check(id: &'static str, tier: Tier) -> i32 {
     }
 }
 
+fn replay_kind(path: &str) -> String {
+    std::fs::read_to_string(path)
+        .ok()
+        .and_then(|s| serde_json::from_str::<serde_json::Value>(&s).ok())
+        .and_then(|v| v.get("kind").and_then(|k| k.as_str()).map(|s| s.to_string()))
+        .unwrap_or_default()
+}
+
 fn replay(id: &'static str, path: &str) -> i32 {
+    match replay_kind(path).as_str() {
+        "pipe" => return props::c12::replay(id, path),
+        "stream_socket" => {
+            let case: Option<props::c10::StreamCase> = std::fs::read_to_string(path)
+                .ok()
+                .and_then(|s| serde_json::from_str::<serde_json::Value>(&s).ok())
+                .and_then(|v| serde_json::from_value(v["case"].clone()).ok());
+            return match case {
+                Some(c) => match props::l3phases::c09_socket_replay(&c) {
+                    Some(fi) => {
+                        println!("{}", fi.msg);
+                        println!("VIOLATION property={} replay={}", id, path);
+                        EXIT_VIOLATION
+                    }
+                    None => {
+                        println!("replay {}: property {} holds on this case", path, id);
+                        EXIT_OK
+                    }
+                },
+                None => EXIT_INCONCLUSIVE,
+            };
+        }
+        "backpressure" => {
+            let ctx = Ctx::new(id, Tier::Thorough, "exploration");
+            let acc = Accum::new();
+            return props::l3phases::backpressure_phase(&ctx, &acc, id).unwrap_or(EXIT_OK);
+        }
+        "stream_socket_c10" => {
+            let case: Option<props::c10::StreamCase> = std::fs::read_to_string(path)
+                .ok()
+                .and_then(|s| serde_json::from_str::<serde_json::Value>(&s).ok())
+                .and_then(|v| serde_json::from_value(v["case"].clone()).ok());
+            return match case.and_then(|c| props::l3phases::c10_socket_replay(&c)) {
+                Some(fi) => {
+                    println!("{}", fi.msg);
+                    println!("VIOLATION property={} replay={}", id, path);
+                    EXIT_VIOLATION
+                }
+                None => {
+                    println!("replay {}: property {} holds on this case", path, id);
+                    EXIT_OK
+                }
+            };
+        }
+        "c10mem" => {
+            let ctx = Ctx::new(id, Tier::Thorough, "exploration");
+            let acc = Accum::new();
+            return props::l3phases::c10_memory_phase(&ctx, &acc).unwrap_or(EXIT_OK);
+        }
+        _ => {}
+    }
     if let Some(hp) = hist_prop(id) {
         return histprop::replay(&hp, path);
     }
